@@ -51,6 +51,22 @@ func bp(v bool) *bool    { return &v }
 
 func randStr(r *rand.Rand, p string) string { return fmt.Sprintf("%s-%d", p, r.Intn(1000)) }
 
+// randText: free text as it appears in commands, arguments, environment values and annotations - including the characters
+// JSON encoders may or may not escape (&, <, >, quotes, backslashes, non-ASCII, control characters)
+var textBits = []string{"a && b", "x > /dev/null", "<tag>", "it's", "say \"hi\"", "back\\slash", "tab\there", "line1\nline2", "ünïcödé", "日本語", "\u2028", "100%", "a=b&c=d", "{}", "[1,2]", "plain"}
+
+func randText(r *rand.Rand) string {
+	n := 1 + r.Intn(3)
+	out := ""
+	for i := 0; i < n; i++ {
+		if i > 0 {
+			out += " "
+		}
+		out += textBits[r.Intn(len(textBits))]
+	}
+	return out
+}
+
 // randTemplate: a random but valid PodTemplateSpec (integers within the ranges pod validation accepts).
 func randTemplate(r *rand.Rand) v1.PodTemplateSpec {
 	t := v1.PodTemplateSpec{ObjectMeta: metav1.ObjectMeta{Labels: map[string]string{"app": "web"}}}
@@ -60,13 +76,13 @@ func randTemplate(r *rand.Rand) v1.PodTemplateSpec {
 	if r.Intn(2) == 0 {
 		t.Annotations = map[string]string{}
 		for i := 0; i < r.Intn(3); i++ {
-			t.Annotations[randStr(r, "a")] = randStr(r, "v")
+			t.Annotations[randStr(r, "a")] = randText(r)
 		}
 	}
 	mkC := func(name string) v1.Container {
 		c := v1.Container{Name: name, Image: randStr(r, "img") + ":" + fmt.Sprint(r.Intn(9))}
 		for i := 0; i < r.Intn(3); i++ {
-			c.Env = append(c.Env, v1.EnvVar{Name: fmt.Sprintf("E%d", i), Value: randStr(r, "x")})
+			c.Env = append(c.Env, v1.EnvVar{Name: fmt.Sprintf("E%d", i), Value: randText(r)})
 		}
 		if r.Intn(3) == 0 {
 			c.Env = append(c.Env, v1.EnvVar{Name: "POD", ValueFrom: &v1.EnvVarSource{FieldRef: &v1.ObjectFieldSelector{FieldPath: "metadata.name"}}})
@@ -81,10 +97,13 @@ func randTemplate(r *rand.Rand) v1.PodTemplateSpec {
 			}
 		}
 		if r.Intn(3) == 0 {
-			c.Command = []string{"/bin/sh", "-c", randStr(r, "cmd")}
+			c.Command = []string{"/bin/sh", "-c", randText(r)}
 		}
 		if r.Intn(3) == 0 {
 			c.Args = []string{}
+		}
+		if r.Intn(3) == 0 {
+			c.Args = []string{randText(r), randText(r)}
 		}
 		if r.Intn(3) == 0 {
 			c.ReadinessProbe = &v1.Probe{ProbeHandler: v1.ProbeHandler{HTTPGet: &v1.HTTPGetAction{Path: "/h", Port: intstr.FromInt(1 + r.Intn(65535))}},
